@@ -299,6 +299,10 @@ impl<'a> Checker<'a> {
                             if store.annotation(*t).is_none() {
                                 problems.push(("target.annotation".into(), format!("annotation {} targets missing annotation {:?}", h, t)));
                             }
+                            if t.as_usize() >= h {
+                                // an annotation can only be built on annotations that already exist: anything else is a cycle in the making
+                                problems.push(("target.annotation.forward".into(), format!("annotation {} targets annotation {:?} which is not older than itself", h, t)));
+                            }
                             if let Some((res, tsel, _)) = text {
                                 match store.resource(*res) {
                                     None => problems.push(("target.resource".into(), format!("annotation {} AnnotationSelector text on missing resource {:?}", h, res))),
@@ -337,6 +341,10 @@ impl<'a> Checker<'a> {
                             }
                         }
                         Selector::RangedTextSelector { resource, begin, end } => {
+                            if begin.as_usize() > end.as_usize() || end.as_usize() - begin.as_usize() > 1_000_000 {
+                                problems.push(("target.textselection".into(), format!("annotation {} has an implausible ranged text selector", h)));
+                                continue;
+                            }
                             match store.resource(*resource) {
                                 None => problems.push(("target.resource".into(), format!("annotation {} ranged text on missing resource", h))),
                                 Some(res) => {
@@ -350,6 +358,10 @@ impl<'a> Checker<'a> {
                             }
                         }
                         Selector::RangedAnnotationSelector { begin, end, .. } => {
+                            if end.as_usize() >= h || begin.as_usize() > end.as_usize() || end.as_usize() - begin.as_usize() > 1_000_000 {
+                                problems.push(("target.annotation.forward".into(), format!("annotation {} has an implausible ranged annotation selector {:?}..{:?}", h, begin, end)));
+                                continue;
+                            }
                             for i in begin.as_usize()..=end.as_usize() {
                                 if store.annotation(AnnotationHandle::new(i)).is_none() {
                                     problems.push(("target.annotation".into(), format!("annotation {} ranged annotation selector over missing annotation {}", h, i)));
